@@ -61,6 +61,12 @@ def cases(rng, tier):
             chunk = 1000
         out.append(dict(members=mem, chain=ch, password=pw, header=header, target=target, entry=rng.choice(ENTRIES),
                         block=block, chunk=chunk, volume=(rng.choice(VOLUMES) if target == "mv" else None)))
+    # I/O blocks of 1..4 bytes (a first read shorter than what a decoder needs to start), every chain family once;
+    # and volume sizes that put a volume boundary at each of the first bytes of the second session's folder
+    small = [c for c in chains if len(c) <= 2 and not any(x["f"] == "AES" for x in c)]
+    for i, ch in enumerate(small if tier == "thorough" else small[:: max(1, len(small) // 12)]):
+        out.append(dict(members=[{"name": "s%d" % i, "content": G.content_recipe(rng, length=300)}], chain=ch, password=None, header="encoded", target="bytesio", entry="writestr",
+                        block=1 + i % 4, chunk=None, volume=None))
     if tier == "thorough":
         # every chain x every boundary length once
         for ch in chains:
@@ -197,6 +203,8 @@ def run_case(case):
         # the PPMd library alone cannot round-trip this stream: one mechanism, whatever the symptom
         viol = [{"key": "codec-library/pyppmd-roundtrip", "what": "pyppmd %s cannot round-trip this input by itself (symptom here: %s)" % (
             [c for c in case["chain"] if c["f"] == "PPMD"], viol[0]["what"][:150])}]
+    if viol and any(c["f"] == "DEFLATE64" for c in case["chain"]) and K.inflate64_faulty(case["chain"], [b for _, b in members if b]):
+        viol = [{"key": "codec-library/inflate64-roundtrip", "what": "inflate64 alone (Deflater fed these pieces, then Inflater) does not give the input back (symptom here: %s)" % viol[0]["what"][:150]}]
     if viol and case["chunk"] and case["chunk"] <= 8 and K.pybcj_small_feed_faulty(case["chain"], [b for _, b in members], case["chunk"]):
         viol = [{"key": "codec-library/pybcj-small-feeds", "what": "pybcj %s decoder alone mis-decodes when fed %d-byte pieces (symptom here: %s)" % (
             [c["f"] for c in case["chain"] if c["f"] in G.BCJ], case["chunk"], viol[0]["what"][:150])}]
